@@ -35,6 +35,10 @@ MAXP = param("C13_MAXP", quick=2, thorough=3)      # params of each kind
 MAXPOS = param("C13_MAXPOS", quick=3, thorough=5)  # positional args at the call
 MAXKW = param("C13_MAXKW", quick=2, thorough=3)    # keyword args at the call
 MAXKO = param("C13_MAXKO", quick=MAXP, thorough=MAXP)  # keyword-only params
+# 1: the call is made in the f(*args, **kwargs) form the compiler emits for calls with
+# star-arguments: all positionals in one concrete tuple, all keywords in one concrete dict;
+# Args.simplify (traced) must turn it back into the flat call before binding
+EX = param("C13_EX", quick=0, thorough=0)
 
 _options = config.Options.create()
 _loader = load_pytd.create_loader(_options)
@@ -231,12 +235,26 @@ def expected(d):
 
 
 @untraced
-def make_args(d):
+def _make_args(d):
   npos, kws = call_shape(d)
   posargs = tuple(CTX.program.NewVariable([TAGS[i]], [], NODE) for i in range(npos))
   named = {n: CTX.program.NewVariable([TAGS[npos + i]], [], NODE)
            for i, n in enumerate(kws)}
-  return function.Args(posargs=posargs, namedargs=named)
+  if not EX:
+    return function.Args(posargs=posargs, namedargs=named)
+  star = CTX.convert.build_tuple(NODE, list(posargs))
+  dd = _instances.Dict(CTX)
+  for n, v in named.items():
+    dd.set_str_item(NODE, n, v)
+  return function.Args(posargs=(), namedargs={}, starargs=star,
+                       starstarargs=dd.to_variable(NODE))
+
+
+def make_args(d):
+  args = _make_args(d)
+  if EX:
+    args = args.simplify(NODE, CTX)   # the real flattening of *args / **kwargs
+  return args
 
 
 def tag_of(var):
